@@ -121,6 +121,7 @@ def sig64(*parts):
     return int.from_bytes(h.digest(), "big")
 
 
+_FF_POOLS = []
 _FAST_FAIL = bool(os.environ.get("VERIF_FAST_FAIL"))     # regression tooling only: a shard stops at its first failure
 
 
@@ -554,17 +555,20 @@ def run_property(pid, tier, seed, jobs=None):
         results = [_worker(w) for w in work]
     else:
         ctx = mp.get_context("fork")
-        with ctx.Pool(min(jobs, len(work))) as pool:
-            if os.environ.get("VERIF_FAST_FAIL"):
-                # regression tooling only (tools/seedregress.sh, tools/selftest.sh): the question there is just "exit 1 or not", so the
-                # run stops at the first shard that reports a failure instead of collecting every root cause
-                results = []
-                for res in pool.imap_unordered(_worker, work, chunksize=1):
-                    results.append(res)
-                    if res[0] == "err" or res[1].failures:
-                        pool.terminate()
-                        break
-            else:
+        if os.environ.get("VERIF_FAST_FAIL"):
+            # regression tooling only (tools/seedregress.sh, tools/selftest.sh): the question there is just "exit 1 or not", so the
+            # run stops at the first shard that reports a failure instead of collecting every root cause.  The pool is not shut
+            # down in an orderly way (terminate() can dead-lock on a worker killed while it holds the result queue): main() kills
+            # the workers and leaves with os._exit once the verdict is printed.
+            pool = ctx.Pool(min(jobs, len(work)))
+            _FF_POOLS.append(pool)
+            results = []
+            for res in pool.imap_unordered(_worker, work, chunksize=1):
+                results.append(res)
+                if res[0] == "err" or res[1].failures:
+                    break
+        else:
+            with ctx.Pool(min(jobs, len(work))) as pool:
                 results = pool.map(_worker, work, chunksize=1)
     for tag, r in results:
         if tag == "err":
@@ -689,7 +693,18 @@ def main(argv):
     try:
         if a.replay:
             return run_replay(pid, a.replay)
-        return run_property(pid, a.tier, seed, a.jobs)
+        rc = run_property(pid, a.tier, seed, a.jobs)
+        if _FF_POOLS:
+            for pool in _FF_POOLS:
+                for w in list(getattr(pool, "_pool", [])):
+                    try:
+                        w.kill()
+                    except Exception:
+                        pass
+            sys.stdout.flush()
+            sys.stderr.flush()
+            os._exit(rc)
+        return rc
     except HarnessError as e:
         print("HARNESS-ERROR %s: %s" % (pid, e), file=sys.stderr)
         return 2
